@@ -115,6 +115,21 @@ func RunDirect(rng *lib.Rng, tier string, sum *lib.Summary) {
 		}
 	}
 
+	// attachment operations on values of every kind (see direct_attachkinds.go)
+	nAK := 60
+	if tier == "thorough" {
+		nAK = 1500
+	}
+	for _, sc := range dmAttachmentKindScripts(lib.NewRng(rng.U64()), nAK) {
+		d.mutTried++
+		if d.process(sc) {
+			d.mutAccepted++
+			sum.Count("direct:attachment-kinds:accepted")
+		} else {
+			sum.Count("direct:attachment-kinds:rejected-or-duplicate")
+		}
+	}
+
 	sum.Evaluations += d.executions
 	sum.DistinctNontrivial += d.accepted
 	ratio := 0.0
